@@ -372,6 +372,14 @@ fn body_decls(out: &mut Vec<Decl>) {
     for body in ["enum E {}", "enum E { A }", "enum E { A, B(u8) }"] {
         push(&format!("{a}{body}"), vec![None], &elem);
     }
+    // "more than one flatten field" inside a struct variant of a FromMeta enum
+    push("enum E { A { #[darling(flatten)] a: u8, b: u8 }, B }", vec![], &[0]);
+    let vf2 = "enum E { A { #[darling(flatten)] a: u8, #[darling(flatten)] b: u8, c: u8 }, B }";
+    push(vf2, vec![find(vf2, "flatten", 0), find(vf2, "flatten", 1)], &[0]);
+    let vf3 = "enum E { B, A { #[darling(flatten)] a: u8, c: u8, #[darling(default, flatten)] b: u8 }, C { #[darling(flatten)] x: u8 } }";
+    push(vf3, vec![find(vf3, "flatten", 0), find(vf3, "flatten", 1)], &[0]);
+    // one flatten field in each of two variants is no conflict
+    push("enum E { A { #[darling(flatten)] a: u8 }, C { #[darling(flatten)] x: u8, y: u8 } }", vec![], &[0]);
     // attrs field needs forward_attrs
     let at1 = format!("{a}struct S {{ attrs: Vec<syn::Attribute>, b: u8 }}");
     push(&at1, vec![find(&at1, "attrs", 0)], &elem);
